@@ -181,7 +181,10 @@ def install_lg_queries(reg: Registry):
         return [
             ('stack-fresh', z3.And(S >= o.alloc, S < h.alloc, h.cls(S) == CLS_LIST)),
             ('old-lists', z3.And(FA([l], z3.Implies(l < o.alloc, h.bagof(l) == o.bagof(l)), [h.bagof(l)]),
-                                 FA([l], z3.Implies(l < o.alloc, h.len(l) == o.len(l)), [h.len(l)]))),
+                                 FA([l], z3.Implies(l < o.alloc, h.len(l) == o.len(l)), [h.len(l)]),
+                                 FA([l], z3.Implies(l < o.alloc, z3.Select(h.arr['L_at'], l) == z3.Select(o.arr['L_at'], l)), [z3.Select(h.arr['L_at'], l)]),
+                                 FA([l], z3.Implies(l < o.alloc, z3.And(h.cls(l) == o.cls(l), h.own_obj(l) == o.own_obj(l))), [h.cls(l)]),
+                                 FA([l], z3.Implies(l < o.alloc, h.own_obj(l) == o.own_obj(l)), [h.own_obj(l)]))),
             ('fields-same', z3.And(h.arr['f_super_assets'] == o.arr['f_super_assets'])),
             ('stack-elems', FA([v], z3.Implies(h.bag(S, v) > 0, z3.And(is_VRef(v), ANC(c.self, v_a(v)), v_a(v) >= 0, v_a(v) < spec_heap(o.schema).alloc)), [h.bag(S, v)])),
             ('target-still-reachable', z3.Implies(ANC(c.self, c.target_asset),
@@ -196,7 +199,7 @@ def install_lg_queries(reg: Registry):
         return z3.If(h.len(S) >= 1, 1 + ldepth(v_a(h.at(S, 0))), 0)
 
     reg.add(Contract(ML + ':LanguageGraphAsset.is_subasset_of', {'self': Obj(LGA), 'target_asset': Obj(LGA)}, returns=T.bool,
-                     requires=req, ensures=lambda c: [('def', c.res == ANC(c.self, c.target_asset))],
+                     requires=req, ensures=lambda c: [('def', c.res == ANC(c.self, c.target_asset))] + old_region_unchanged_all(c.old, c.h),
                      modifies=LIST_ARRAYS + ('cls', 'own_obj'), allocates=True,
                      loops={0: LoopSpec(inv, variant=variant)}, props=('C15', 'C01'),
                      note='equality of language-graph assets is identity (EQ-ID: asset names are unique)'))
